@@ -54,6 +54,11 @@ Proof.
   destruct v as [ty vs vi vd key cs]. unfold keyed. cbn [set_ty set_key n_ty]. rewrite !strs_ok_unfold.
   intros [H1 H2]. split; [|exact H2]. unfold str_ok in *. rewrite tymask_ldiff by reflexivity. exact H1.
 Qed.
+Lemma strs_ok_unnamed v : strs_ok v -> strs_ok (unnamed v).
+Proof.
+  destruct v as [ty vs vi vd key cs]. unfold unnamed. cbn [set_ty set_key n_ty]. rewrite !strs_ok_unfold.
+  intros [H1 H2]. split; [|exact H2]. unfold str_ok in *. rewrite tymask_ldiff by reflexivity. exact H1.
+Qed.
 
 (** ---- list surgery keeps Forall ---- *)
 Lemma Forall_remove_nth {A} (P : A -> Prop) : forall i l, Forall P l -> Forall P (remove_nth i l).
@@ -283,7 +288,7 @@ Lemma finish_add_good object value pstr cs : strs_ok object -> strs_ok value ->
   exists st o, finish_add object value pstr cs = Ok (st, o) /\ strs_ok o.
 Proof.
   intros Ho Hv. unfold finish_add. destruct pstr as [|c0 p0].
-  { do 2 eexists; split; [reflexivity|]. apply strs_ok_set_key; exact Hv. }
+  { do 2 eexists; split; [reflexivity|]. apply strs_ok_unnamed; exact Hv. }
   destruct (last_slash (c0 :: p0) 0 None) as [i|]; [|do 2 eexists; split; [reflexivity | exact Ho]].
   destruct (get_item_from_pointer object (firstn i (c0 :: p0)) cs) as [pp|]; [|do 2 eexists; split; [reflexivity | exact Ho]].
   destruct (subtree object pp) as [par|] eqn:Sp; [|do 2 eexists; split; [reflexivity | exact Ho]].
@@ -356,7 +361,7 @@ Proof.
     destruct (is_nil pstr) eqn:En; cbn [andb orb].
     + destruct (get_object_item patch (Some s_value) cs) as [[vi v0]|] eqn:Gv; [|apply ap_good_ok; assumption].
       destruct (cJSON_Duplicate v0) as [v|] eqn:D; [|apply ap_good_ok; assumption].
-      apply ap_good_ok; [|assumption]. apply strs_ok_set_key. eapply strs_ok_dup; [eapply Hval; first [exact Gv | reflexivity] | exact D].
+      apply ap_good_ok; [|assumption]. apply strs_ok_unnamed. eapply strs_ok_dup; [eapply Hval; first [exact Gv | reflexivity] | exact D].
     + apply Hdupv. exact Ho.
   - (* REMOVE *)
     destruct (is_nil pstr); cbn [andb orb]; [apply ap_good_ok; [apply strs_ok_invalid | assumption]|].
@@ -366,7 +371,7 @@ Proof.
     destruct (is_nil pstr) eqn:En; cbn [andb orb].
     + destruct (get_object_item patch (Some s_value) cs) as [[vi v0]|] eqn:Gv; [|apply ap_good_ok; assumption].
       destruct (cJSON_Duplicate v0) as [v|] eqn:D; [|apply ap_good_ok; assumption].
-      apply ap_good_ok; [|assumption]. apply strs_ok_set_key. eapply strs_ok_dup; [eapply Hval; first [exact Gv | reflexivity] | exact D].
+      apply ap_good_ok; [|assumption]. apply strs_ok_unnamed. eapply strs_ok_dup; [eapply Hval; first [exact Gv | reflexivity] | exact D].
     + destruct (detach_path_good object pstr cs Ho) as (r & Er & Hr). rewrite Er. cbn [bind].
       destruct r as [[it o']|]; [|apply ap_good_ok; assumption].
       apply Hdupv. tauto.
